@@ -269,3 +269,13 @@ C05 = [
         label="bounded", defines={"B64_S": 5}, note="decoder on an arbitrary 5-character string (all byte values) with any target size 0..5 or NULL: memory safe, returns -1 or a length within the target"),
 ]
 PROPS["C05"] = C05
+
+
+# ------------------------------------------------------------------ C06 leaf: nolibxml in-place scanners (bounded)
+C06 = [
+    Job(name="nolibxml_" + fn, driver="nolibxml.drv.c", entry="hp_nolibxml_" + fn, mode="plain", unwind=40, min_post=0, cost=60, family="nolibxml",
+        label="bounded", defines={"BL": 7}, timeout=1500, tdefs={"BL": 10}, ttimeout=7200,
+        note="hwloc__nolibxml_import_%s on an arbitrary 7-byte buffer + NUL (all byte values), cursors anywhere inside: memory safe, returns, cursors stay inside; strspn model; loops unwound 40 times" % fn)
+    for fn in ("next_attr", "find_child", "close_tag", "get_content")
+]
+PROPS["C06"] = C06
